@@ -7,8 +7,11 @@
     observed from bitcoinlib is judged by TLC with digit arithmetic (no floats, no Python oracle).
 """
 import json
+import numbers
 import os
 import time
+from decimal import Decimal
+from fractions import Fraction
 
 from harness import common
 from harness.common import Check, tier
@@ -63,6 +66,77 @@ REFUSED = {'ok': False, 'neg': False, 'd': []}
 
 def amount_class(n):
     return len(str(n)) if n < 10 ** 15 else '>=1e15'
+
+
+TYPES = ['int', 'bool', 'float', 'str', 'Value', 'Decimal', 'DecimalScaled', 'Fraction', 'np.int64', 'np.int32',
+         'np.uint64', 'np.float64', 'np.float32']
+INPUT_SIDE = 3 * 10 ** 15         # value of the input of the transaction built around a typed output (for the fee)
+OUTPUT_SIDE = 1                   # value of the output of the transaction built around a typed input
+
+
+def make_typed(ty, w, p, q, neg, value_cls=None):
+    """Input generator: the amount w + p/q (negated if neg) carried by type `ty`; None if the type cannot carry it
+    exactly.  The exact value is known by construction (it is never computed from the carrier)."""
+    import numpy as np
+    exact = Fraction(w) + Fraction(p, q)
+    if neg:
+        exact = -exact
+    whole = exact.denominator == 1
+    dyadic = exact.denominator & (exact.denominator - 1) == 0
+    terminating = (10 ** 30) % exact.denominator == 0
+    try:
+        if ty == 'int':
+            return int(exact) if whole else None
+        if ty == 'bool':
+            return bool(exact) if exact in (0, 1) else None
+        if ty == 'float':
+            v = float(exact)
+            return v if dyadic and Fraction(v) == exact else None
+        if ty == 'str':
+            return '%d sat' % exact if whole else None           # fractional texts are the rounding envelope (parse)
+        if ty == 'Value':
+            return value_cls('%d sat' % exact) if whole and 0 <= exact < 10 ** 15 else None
+        if ty == 'Decimal':
+            if not terminating:
+                return None
+            return Decimal(exact.numerator) / Decimal(exact.denominator)
+        if ty == 'DecimalScaled':      # an amount computed as coins * 10^8
+            if not terminating:
+                return None
+            v = (Decimal(exact.numerator) / Decimal(exact.denominator) / Decimal(10 ** 8)) * 10 ** 8
+            return v if Fraction(v) == exact else None
+        if ty == 'Fraction':
+            return exact
+        if ty in ('np.int64', 'np.int32', 'np.uint64'):
+            if not whole or (ty == 'np.uint64' and exact < 0) or (ty == 'np.int32' and abs(exact) >= 2 ** 31):
+                return None
+            return {'np.int64': np.int64, 'np.int32': np.int32, 'np.uint64': np.uint64}[ty](int(exact))
+        if ty in ('np.float64', 'np.float32'):
+            v = (np.float64 if ty == 'np.float64' else np.float32)(float(exact))
+            return v if dyadic and Fraction(float(v)) == exact else None
+    except Exception:
+        return None
+    return None
+
+
+def exact_of(x):
+    """(is of an integer type, exact value as Fraction or None) of a stored amount."""
+    isint = isinstance(x, numbers.Integral)
+    try:
+        if hasattr(x, 'item') and not isinstance(x, (int, float)):
+            x = x.item()
+        if isinstance(x, (bool, int, float, Decimal, Fraction)):
+            return isint, Fraction(x)
+    except Exception:
+        pass
+    return isint, None
+
+
+def rat(fr):
+    """Fraction -> JSON fields of a stored amount (den = 0: no exact value / denominator too large for TLC)."""
+    if fr is None or fr.denominator >= 2 ** 31:
+        return {'neg': False, 'num': [], 'den': 0}
+    return {'neg': fr < 0, 'num': digits(fr.numerator), 'den': fr.denominator}
 
 
 def hard_amounts(rng, count):
@@ -263,6 +337,105 @@ def run(replay=None):
         add({'k': 'place', 'api': api, 'kind': kind, 'd': digits(v), 'got': got},
             ('place', api, kind, amount_class(abs(int(v)))), '%s(value=%r) then raw()' % (api, v), ['place', v, kind, api])
 
+    def observe_typed(api, ty, w, p, q, neg):
+        v = make_typed(ty, w, p, q, neg, Value)
+        if v is None:
+            return False
+        exact = (Fraction(w) + Fraction(p, q)) * (-1 if neg else 1)
+        got = {'accepted': False, 'isint': False, 'neg': False, 'num': [], 'den': 0, 'ser': [],
+               'fee': {'whole': False, 'neg': False, 'num': []}}
+        prev = b'\x11' * 32
+        try:
+            if api == 'Output':
+                o = Output(v, lock_script=b'\x51', network='bitcoin')
+                t = Transaction(outputs=[o], network='bitcoin', witness_type='legacy')
+                t2 = Transaction([Input(prev, 0, value=INPUT_SIDE, network='bitcoin')],
+                                 [Output(v, lock_script=b'\x51', network='bitcoin')], network='bitcoin')
+                stored = o.value
+            elif api == 'add_output':
+                t = Transaction(network='bitcoin', witness_type='legacy')
+                t.add_output(v, lock_script=b'\x51')
+                t2 = Transaction([Input(prev, 0, value=INPUT_SIDE, network='bitcoin')], network='bitcoin')
+                t2.add_output(v, lock_script=b'\x51')
+                stored = t.outputs[0].value
+            elif api == 'Input':
+                i = Input(prev, 0, value=v, network='bitcoin')
+                t = None
+                t2 = Transaction([i], [Output(OUTPUT_SIDE, lock_script=b'\x51', network='bitcoin')], network='bitcoin')
+                stored = i.value
+            else:
+                t = None
+                t2 = Transaction(outputs=[Output(OUTPUT_SIDE, lock_script=b'\x51', network='bitcoin')], network='bitcoin')
+                t2.add_input(prev, 0, value=v)
+                stored = t2.inputs[0].value
+            ser = []
+            if t is not None:
+                raw = t.raw()
+                if raw[4] != 0 or raw[5] != 1:
+                    raise common.MachineryError('unexpected layout of a transaction without inputs: %s' % raw.hex())
+                ser = list(raw[6:14])
+            t2.update_totals()
+            fisint, fexact = exact_of(t2.fee)
+            isint, sexact = exact_of(stored)
+            got = dict(rat(sexact), accepted=True, isint=isint, ser=ser,
+                       fee={'whole': bool(fisint and fexact is not None and fexact.denominator == 1),
+                            'neg': bool(fexact is not None and fexact < 0),
+                            'num': digits(fexact.numerator) if fexact is not None and fexact.denominator == 1 else []})
+        except common.MachineryError:
+            raise
+        except Exception:
+            pass
+        add({'k': 'typed', 'api': api, 'ty': ty.replace('Scaled', ''), 'neg': neg, 'num': digits(abs(exact.numerator)),
+             'den': exact.denominator, 'other': digits(OUTPUT_SIDE if api in ('Input', 'add_input') else INPUT_SIDE),
+             'floatwhole': float(exact).is_integer(),       # oracle fact about the nearest double (Python float, not bitcoinlib)
+             'got': got},
+            ('typed', api, ty, 'whole' if exact.denominator == 1 else 'q=%d' % q, neg, amount_class(abs(int(exact)))),
+            '%s(%r) [exact value %s%s]' % (api if api not in ('Input', 'add_input') else api + '(value=)', v, exact.numerator,
+                                           '/%d' % exact.denominator if exact.denominator != 1 else ''),
+            ['typed', api, ty, w, p, q, neg])
+        return True
+
+    def observe_vtyped(ty, w, p, q, den, net):
+        """Value(<number of type ty>, <denominator>): judged like the text '<exact decimal expansion> <symbol>'."""
+        name, sym, _ = den
+        exact = Fraction(w) + Fraction(p, q)
+        if (10 ** 40) % exact.denominator:
+            return False
+        v = make_typed(ty, w, p, q, False, Value)
+        if v is None or ty in ('str', 'Value'):
+            return False
+        fl = 0
+        while (exact * 10 ** fl).denominator != 1:
+            fl += 1
+        text = dec_text(int(exact * 10 ** fl), fl) + (' ' + sym if sym else '')
+        try:
+            val = Value(v, sym if sym else 1, network=net)
+            r = val.value_sat
+            got, gnet = (got_int(r), val.network.name) if isinstance(r, int) and not isinstance(r, bool) else (REFUSED, '')
+        except Exception:
+            got, gnet = REFUSED, ''
+        add({'k': 'parse', 'api': 'ValueTyped', 'text': cps(text), 'net': net, 'validate': False, 'got': got, 'gnet': gnet},
+            ('vtyped', ty, name, 'whole' if q == 1 or p == 0 else 'q=%d' % q, amount_class(w)),
+            'Value(%r, %r, network=%s).value_sat' % (v, sym or 1, net), ['vtyped', ty, w, p, q, name, net])
+        return True
+
+    def observe_arith(op, a, b):
+        try:
+            x = Value.from_satoshi(a)
+            if op == 'add':
+                r = (x + Value.from_satoshi(b)).value_sat
+            elif op == 'sub':
+                r = (x - Value.from_satoshi(b)).value_sat
+            else:
+                r = (x * b).value_sat
+            got = got_int(r) if isinstance(r, int) and not isinstance(r, bool) else REFUSED
+        except Exception:
+            got = REFUSED
+        add({'k': 'arith', 'op': op, 'a': digits(a), 'b': digits(b), 'm': b if op == 'mul' else 0, 'got': got},
+            ('arith', op, amount_class(a), amount_class(b)),
+            'Value.from_satoshi(%d) %s %s' % (a, {'add': '+', 'sub': '-', 'mul': '*'}[op],
+                                              b if op == 'mul' else 'Value.from_satoshi(%d)' % b), ['arith', op, a, b])
+
     den_by_name = {d[0]: d for d in DENS}
     if replay:
         redo = replay['case'].get('redo')
@@ -280,6 +453,12 @@ def run(replay=None):
             observe_format(redo[1], den_by_name[redo[2]], redo[3], redo[4], kl, unit_api=redo[5])
         elif redo[0] == 'place':
             observe_place(redo[1], redo[2], redo[3])
+        elif redo[0] == 'typed':
+            observe_typed(*redo[1:])
+        elif redo[0] == 'vtyped':
+            observe_vtyped(redo[1], redo[2], redo[3], redo[4], den_by_name[redo[5]], redo[6])
+        elif redo[0] == 'arith':
+            observe_arith(redo[1], redo[2], redo[3])
         elif redo[0] == 'wallet':
             for rec, klass, desc, rd in common.pmap(_wallet_job, [(common.seed(), 1, [redo[1], redo[2]])], procs=1)[0]:
                 add(rec, klass, desc, rd)
@@ -436,6 +615,42 @@ def run(replay=None):
             for api in ('add_output', 'Output'):
                 observe_place(v, kind, api)
 
+        phase('place')
+        # ---------------- the same entry points with every carrier type of an amount: whole and fractional numbers of
+        # smallest units as int, bool, float, str, Value, Decimal, Fraction and numpy scalars
+        wholes = [2, 546, 1000, 12345, 10 ** 8, 2 ** 24 - 1, 2 ** 31 - 1, 123456789012, 10 ** 15 + 1, SUPPLY - 1, SUPPLY]
+        fracs = [(1, 2), (1, 4), (7, 8), (1, 10), (455, 1000), (1, 3), (2, 7), (1, 10 ** 8), (99999999, 10 ** 8)]
+        for _ in range(30 if thorough else 6):
+            wholes.append(rng.randrange(2, 10 ** rng.randrange(1, 16)))
+        ntyped = 0
+        for api in ('Output', 'add_output', 'Input', 'add_input'):
+            for ty in TYPES:
+                for w in wholes:
+                    ntyped += observe_typed(api, ty, w, 0, 1, False)
+                    for p, q in (fracs if thorough else rng.sample(fracs, 4)):
+                        ntyped += observe_typed(api, ty, w, p, q, False)
+                if api in ('Output', 'add_output'):
+                    for w in (1, 546, 10 ** 8):
+                        ntyped += observe_typed(api, ty, w, 0, 1, True)
+                        ntyped += observe_typed(api, ty, w, 1, 2, True)
+                ntyped += observe_typed(api, ty, 0, 1, 2, False)
+                if api in ('Output', 'add_output'):             # (an input of 1 cannot pay the output of the transaction built around it)
+                    ntyped += observe_typed(api, ty, 1, 0, 1, False) + observe_typed(api, ty, 0, 0, 1, False)
+        # Value(<typed number>, denominator) and Value arithmetic on whole amounts
+        for ty in TYPES:
+            for _ in range(60 if thorough else 14):
+                den = rng.choice(DENS)
+                w = rng.choice(wholes + [0, 1, 7])
+                p, q = rng.choice([(0, 1), (0, 1), (1, 2), (1, 4), (1, 10), (455, 1000), (1, 10 ** 8)])
+                ntyped += observe_vtyped(ty, w, p, q, den, rng.choice(NETS)[0])
+        for _ in range(2000 if thorough else 250):
+            a = rng.choice(wholes + [rng.randrange(10 ** rng.randrange(1, 16)), rng.randrange(SUPPLY // 2)])
+            b = rng.choice(wholes + [rng.randrange(10 ** rng.randrange(1, 16)), rng.randrange(SUPPLY // 2)])
+            observe_arith('add', a, b)
+            observe_arith('sub', max(a, b), min(a, b))
+            observe_arith('mul', a, rng.choice([0, 1, 2, 3, 10, 21, 1000, rng.randrange(1, 10 ** 6)]))
+        ck.notes['typed_amounts'] = ntyped
+        phase('typed')
         # ---------------- wallet-created transactions paying a text amount
         for rec, klass, desc, redo in common.pmap(_wallet_job, [(common.seed(), 40 if thorough else 14, None)], procs=1)[0]:
             add(rec, klass, desc, redo)
@@ -462,7 +677,7 @@ def run(replay=None):
         ck.sample({'case': d, 'record_kind': r['k']}, limit=8)
     ck.notes['skipped_not_judged'] = skipped
     ck.notes['records_by_kind'] = {k: sum(1 for r in recs if r[0]['k'] == k) for k in
-                                   ('parse', 'format', 'rt', 'ident', 'place', 'wallet')}
+                                   ('parse', 'format', 'rt', 'ident', 'place', 'typed', 'arith', 'wallet')}
     return ck.finish()
 
 
